@@ -31,6 +31,7 @@ fn compute_return_projection(
     return_fields: Option<&[String]>,
     registry: &SchemaRegistry,
     event_type: &str,
+    order_field: Option<&str>,
 ) -> Result<(Arc<BatchSchema>, Vec<usize>), FlowOperatorError> {
     let return_fields = match return_fields {
         None | Some([]) => {
@@ -90,8 +91,9 @@ fn compute_return_projection(
         }
     }
 
-    // Add RETURN payload fields
-    for return_field in return_fields {
+    // Add RETURN payload fields, then the ORDER BY field: the shard-level and
+    // coordinator ordered merges look the sort column up in the projected schema
+    for return_field in return_fields.iter().map(String::as_str).chain(order_field) {
         if payload_set.contains(return_field) {
             if let Some(idx) = input_schema
                 .columns()
@@ -234,6 +236,7 @@ pub async fn build_memtable_flow(
             return_fields.as_deref(),
             &registry,
             event_type,
+            plan.order_by_for_shard_level().map(|o| o.field.as_str()),
         ) {
             Ok((output_schema, indices)) => {
                 final_schema = output_schema;
@@ -463,6 +466,7 @@ pub async fn build_segment_stream(
             return_fields.as_deref(),
             &registry,
             event_type,
+            plan.order_by_for_shard_level().map(|o| o.field.as_str()),
         ) {
             Ok((output_schema, indices)) => {
                 final_schema = output_schema;
